@@ -38,6 +38,10 @@ DilAtLeastOne == DilOpt(Anchor, K, g, d0) >= d0
 KeepAliveSameTap == (K - 1) \in Kept(Anchor, K, b, g)
 \* C01 (time axis): the exported kernel/dilation/padding compute the same function
 ExportEquivalent == TermsEqual(Anchor, K, b, g, d0)
+\* the same for a layer declared with padding='same': holds when no tap is pruned, FAILS as soon as one is
+\* (finding F67: the exported layer re-centres a kernel whose kept taps are the trailing ones)
+ExportEquivalentSame     == TermsEqualSame(Anchor, K, b, g, d0)
+ExportEquivalentSameOpen == (Kept(Anchor, K, b, g) = 0..K-1) => TermsEqualSame(Anchor, K, b, g, d0)
 \* the reachable binarised patterns are exactly suffix x comb
 PatternShape == IsSuffixComb(K, Kept(Anchor, K, b, g))
 \* C12 (monotonicity on the mask lattice): raising one magnitude never shrinks the kept set
